@@ -20,6 +20,7 @@ Arguments tl_try : simpl never.
 Arguments tl_rel_raises : simpl never.
 Arguments normalise : simpl never.
 Arguments faulty : simpl never.
+Arguments intr : simpl never.
 Arguments enabled : simpl never.
 Arguments step : simpl never.
 Arguments run_alone : simpl never.
@@ -140,7 +141,7 @@ Lemma step_set_file s c t : exists c', step (set_file s c) t = set_file (step s 
 Proof.
   unfold step. rewrite enabled_set_file. destruct (negb (enabled s t)); [eexists; reflexivity|].
   change (thr (set_file s c)) with (thr s).
-  destruct (t_pc (thr s t)) as [|a dl|a|a d|a d|a w|a oserr|o d k|o d k|o k].
+  destruct (t_pc (thr s t)) as [|a dl|a|a d|a d i|a w|a oserr|o d k|o d k|o k].
   - destruct (t_prog (thr s t)) as [|cl rest]; [eexists; reflexivity|].
     destruct cl as [o m blk tm poll skip|o force]; unfold begin_call; cbn.
     + destruct (normalise _ _ _). destruct (Nat.eqb _ _); eexists; reflexivity.
@@ -148,15 +149,18 @@ Proof.
         destruct (own_is _ _); cbn; destruct (_ || _); cbn; unfold enter_tlrel; cbn;
         try destruct (tl_rel_raises _ _); eexists; reflexivity.
   - cbn. destruct (tl_try _ _); [destruct (o_fd _)|]; eexists; reflexivity.
-  - cbn. change (faulty (set_file s c) KOpen) with (faulty s KOpen). destruct (faulty s KOpen).
+  - cbn. change (faulty (set_file s c) KOpen) with (faulty s KOpen). change (intr (set_file s c) KOpen) with (intr s KOpen).
+    destruct (faulty s KOpen); [destruct (intr s KOpen)|].
+    + unfold enter_cleanup; cbn. destruct (tl_rel_raises _ _); eexists; reflexivity.
     + unfold after_attempt, enter_cleanup; cbn. destruct (negb (a_blk a)); [destruct (tl_rel_raises _ _); eexists; reflexivity|].
       destruct (a_tm a); try (eexists; reflexivity).
       destruct (_ <? _)%N; [destruct (tl_rel_raises _ _)|]; eexists; reflexivity.
     + eexists; reflexivity.
-  - cbn. change (faulty (set_file s c) KLock) with (faulty s KLock). destruct (faulty s KLock); [eexists; reflexivity|].
+  - cbn. change (faulty (set_file s c) KLock) with (faulty s KLock). change (intr (set_file s c) KLock) with (intr s KLock).
+    destruct (faulty s KLock); [eexists; reflexivity|].
     unfold holder_free_for. cbn. destruct (match holder s with Some h => Nat.eqb h d | None => true end); eexists; reflexivity.
   - cbn. change (faulty (set_file s c) KClose) with (faulty s KClose). unfold k_close, k_unlock. cbn.
-    destruct (faulty s KClose).
+    destruct (faulty s KClose || i).
     + unfold enter_cleanup; cbn. destruct (holder s) as [h|]; [destruct (Nat.eqb h d)|]; cbn; destruct (tl_rel_raises _ _); eexists; reflexivity.
     + unfold after_attempt, enter_cleanup; cbn.
       destruct (holder s) as [h|]; [destruct (Nat.eqb h d)|]; cbn;
